@@ -283,6 +283,10 @@ func c17RunWire(c c17Case) Verdict {
 // reported through lastClientStuck) or the watchdog expired.
 var lastClientStuck bool
 
+// lastClientStall: the run ended in a flow-control stall on an unbuffered
+// transport (harness.Wire.FlowStallNow): unspecified, see there.
+var lastClientStall bool
+
 func withClient(r *harness.Rig, lmtp bool, fn func(c *smtp.Client, w *harness.Wire)) bool {
 	nc, w := r.DialConn()
 	var cl *smtp.Client
@@ -303,26 +307,32 @@ func withClient(r *harness.Rig, lmtp bool, fn func(c *smtp.Client, w *harness.Wi
 		}()
 		fn(cl, w)
 	}()
-	finished, stuck := false, false
-	r.Hub.WaitUntil(func() bool {
-		select {
-		case <-done:
-			finished = true
-			return true
-		default:
+	finished, stuck, stall := false, false, false
+	for deadline := time.Now().Add(harness.Watchdog); !finished && !stuck && !stall && time.Now().Before(deadline); {
+		bothWrite := false
+		r.Hub.WaitUntil(func() bool {
+			select {
+			case <-done:
+				finished = true
+				return true
+			default:
+			}
+			if w.S.BlockedInReadLocked() && w.C.BlockedInReadLocked() && !r.B.AtGateLocked() && r.B.InflightLocked() == 0 {
+				stuck = true
+				return true
+			}
+			// unbuffered transport: each waits for the other to read? (looked
+			// at outside the lock, with the goroutine states)
+			bothWrite = w.S.BlockedInWriteLocked() && w.C.BlockedInWriteLocked()
+			return bothWrite
+		}, time.Until(deadline))
+		if !finished && !stuck && bothWrite {
+			if stall = w.FlowStallNow(); !stall {
+				time.Sleep(200 * time.Microsecond)
+			}
 		}
-		if w.S.BlockedInReadLocked() && w.C.BlockedInReadLocked() && !r.B.AtGateLocked() && r.B.InflightLocked() == 0 {
-			stuck = true
-			return true
-		}
-		if w.S.BlockedInWriteLocked() && w.C.BlockedInWriteLocked() {
-			// unbuffered transport: each waits for the other to read
-			stuck = true
-			return true
-		}
-		return false
-	}, harness.Watchdog)
-	lastClientStuck = stuck
+	}
+	lastClientStuck, lastClientStall = stuck, stall
 	if !finished {
 		w.Abort()
 		select {
